@@ -2,7 +2,7 @@
 """Applies each mutant to /repo (working tree), runs the repository suite and the named checks (quick), reverts.
 Results -> /verif/mutants/RESULTS.json and /verif/mutants/<name>.diff. Usage: run_mutants.py [name-substring]"""
 import subprocess, re, json, sys, os
-ENV = dict(os.environ, GOFLAGS="-mod=mod", GOPROXY="off", GOSUMDB="off", GOTOOLCHAIN="local")
+ENV = dict(os.environ, GOFLAGS="-mod=mod", GOPROXY="off", GOSUMDB="off", GOTOOLCHAIN="local", VERIF_NO_EVIDENCE="1")
 M = [
  ("C01-lookahead-off-by-one", "internal/escape/escape.go", r"if i\+ls <= len\(b\) && bytes\.Equal\(b\[i:i\+ls\], start\)", "if i+ls < len(b) && bytes.Equal(b[i:i+ls], start)", ["C01", "C10"], "start-marker look-ahead bound `<=` -> `<` (a marker at the very end of the buffer is not escaped)"),
  ("C02-float-b-verb-safe", "internal/rfmt/print.go", r"\tcase 'b', 'g', 'G', 'x', 'X':\n\t\tdefer p\.startUnsafe\(\)\.restore\(\)\n", "\tcase 'b', 'g', 'G', 'x', 'X':\n", ["C02", "C05"], "fmtFloat: the unsafe switch dropped for verbs b,g,G,x,X"),
